@@ -31,6 +31,34 @@ NOTES = {
  "C18-m2": ("state_machine.py: State.leave passes `destination` up instead of `destination.parent`", "hierarchy >= 3 levels and a transition between cousin leaves"),
  "C20-m1": ("hsms/protocol.py: _on_disconnected clears _incomplete_messages instead of the receive buffer", "frame delivered partially (segmentation), link goes down, reconnect: framing shifted, select never answered"),
  "C20-m2": ("collection_event_capability.py: S2F33 delete-all keeps the CEID links", "subscribe, clear_collection_events, subscribe the same CEID again, trigger: KeyError in the sender thread"),
+ "C04-m3": ("protocol_dispatcher.py: receiver-thread trigger.clear() moved behind the processing cycle (lost wake-up)", "final segment of a split frame arriving between the incomplete-frame check and the clear(): frame stays in the buffer until unrelated traffic"),
+ "C04-m4": ("hsms/protocol.py: Separate.req handled on the receiver thread before the block is queued", "data frames immediately followed by Separate.req in one segment: the data in front of it is rejected"),
+ "C05-m3": ("hsms/protocol.py: receive buffer cleared in _on_connected (same idea as C05-m1, written independently)", "Select.req in flight during the accept"),
+ "C05-m4": ("hsms/protocol.py: open-transaction routing moved in front of the SELECTED check (same idea as C05-m2)", "NOT SELECTED + data with the system bytes of an open transaction"),
+ "C06-m3": ("common/protocol.py: response queue cached per thread (threading.local) and reused", "a reply arriving after T3 or a duplicate reply, then another request from the same thread: stale reply returned to the wrong request"),
+ "C06-m4": ("receive buffer cleared in Protocol.disable() instead of _on_disconnected", "link drops inside a frame and the connection layer reconnects by itself"),
+ "C07-m3": ("communication_state_machine.py: leave-WAIT_DELAY handler cancels the WAIT_CRA timer instead of the delay timer", "WAIT_DELAY left by link loss/disable, link selected again, second attempt fails before the stale timer expires: retry too early"),
+ "C07-m4": ("gem/handler.py: early returns for WAIT_DELAY/WAIT_CRA, everything else dispatched (same idea as C07-m2)", "message dispatched in DISABLED/NOT_COMMUNICATING (SECS-I: queued behind a slow callback across disable)"),
+ "C08-m3": ("protocol_dispatcher.py: receiver-thread lost wake-up (reply queued but never written)", "send_response queues the reply while the receiver thread is between its empty check and the trailing clear()"),
+ "C08-m4": ("hsms/protocol.py: logging-decode guard narrowed to ValueError", "catalogued function whose body ends inside an item header (IndexError): no reply at all"),
+ "C09-m3": ("hsms/protocol.py: cached pending frame length not reset on disconnect (same idea as C09-m1)", "link loss at offset >= 4 inside a frame with a body, then a new connection"),
+ "C09-m4": ("hsms/protocol.py: _on_disconnecting skips Separate.req when not SELECTED", "peer connects and closes at once: the close sequence overtakes _on_connected, state stays CONNECTED_NOT_SELECTED"),
+ "C10-m3": ("tcp_connection.py: cumulative byte counter used as a relative slice offset", ">= 2 partial sends within one send_data call"),
+ "C10-m4": ("tcp_connection.py: select timeout + not connected ends the loop with success", "sender blocked on a full buffer for > 0.5 s while the peer half-closes (FIN) and keeps its socket open"),
+ "C11-m3": ("state_models_capability.py: S1F15/S1F17 handlers wait for the transition lock", "host request arriving while the operator's attempt-online probe is outstanding"),
+ "C11-m4": ("control_state_machine.py: switch_online_remote remembers index [0] (LOCAL)", "LOCAL, operator REMOTE, leave and re-enter ON-LINE"),
+ "C12-m3": ("collection_event_capability.py: S2F35 pre-check verdict reset per entry", "S2F35 with >= 2 entries where a bad entry is not the last"),
+ "C12-m4": ("collection_event_capability.py: delete-one rebuilds the link list from a set", "event linked to >= 3 reports in non-ascending order, delete one: link order lost"),
+ "C13-m3": ("equipment_constants_capability.py: range verdict reassigned per item", "S2F15 with an out-of-range value that is not last and a valid last item"),
+ "C13-m4": ("alarm.py/alarm_capability.py: clear report depends on a 'reported' flag (same idea as C13-m2)", "set while disabled, enable, clear"),
+ "C16-m3": ("common/message.py: block count len//244 + 1", "body length k*244: no E-bit"),
+ "C16-m4": ("common/protocol.py: _add_message_block clears all incomplete messages when a new system id starts", "blocks of two multi-block messages interleaved"),
+ "C17-m3": ("common/protocol.py send_message keeps sending after a failed block and returns the last result", "multi-block message, corrupted non-last block"),
+ "C17-m4": ("secsi/protocol.py: handshake characters skipped where the length byte is expected (NAK = 0x15 = 21)", "last block with exactly 11 data bytes (body 11, 255, 499 ...)"),
+ "C18-m3": ("state_machine.py: handlers run outside the transition lock", "thread 2 requests B->C while thread 1 is still inside its handlers for A->B"),
+ "C18-m4": ("state_machine.py: State.leave passes the destination unchanged (same idea as C18-m2)", ">= 3 hierarchy levels, cousins"),
+ "C20-m3": ("gem/handler.py: enable() enables the protocol before the communication state machine", "enabling thread descheduled between the two calls while the peer is reachable (found through the thread-stall fault)"),
+ "C20-m4": ("collection_event_capability.py: delete-all disables the links instead of removing them", "subscribe, clear_collection_events, subscribe same CEID with a new report id, trigger"),
 }
 for name, (what, needs) in NOTES.items():
     p = os.path.join(V, "seeded", name, "meta.json")
